@@ -2060,10 +2060,11 @@ class Data(BaseCartesianData):
         # By default fast-histogram drops values that are exactly xmax, so we
         # increase xmax very slightly to make sure that this doesn't happen, to
         # be consistent with np.histogram.
+        # Note that np.spacing is negative for negative values.
         if ndim >= 1:
-            xmax += 10 * np.spacing(xmax)
+            xmax += 10 * np.abs(np.spacing(xmax))
         if ndim >= 2:
-            ymax += 10 * np.spacing(ymax)
+            ymax += 10 * np.abs(np.spacing(ymax))
 
         if ndim == 1:
             range = (xmin, xmax)
